@@ -96,6 +96,15 @@ class Duo:
         self.w.idle()
         return buf
 
+    def logout(self, side):
+        """Graceful end of the connection by `side`: the public disconnect() with a Logout message, then the socket is closed."""
+        ep = self.ep[side]
+        r = self.w.call(ep.disconnect(ConnectionState.DISCONNECTED_WCONN_TODAY, logout_message="bye"))
+        if r[0] == "pending":
+            raise RuntimeError("disconnect blocked")
+        self.w.idle()
+        return r[0]
+
     def brk(self, kind="eof"):
         self.w.link.break_(kind)
         self.w.idle()
